@@ -99,9 +99,9 @@ def _gen_case(g: VGen, opts: dict) -> dict:
     if ret["overridden"]:
         ret["ov"] = g.gen_v(0)
     extra_ignored = ["zz"] if r.random() < 0.2 else []
-    # a name in ignore_args also exempts a **kwargs entry of that name (an ignored positional-only
-    # parameter's name can only reappear there)
-    extra_ignored += [p["name"] for p in params if p["kind"] == "posOnly" and p["ignored"]]
+    # a name in ignore_args also exempts a **kwargs entry of that name (the name of an ignored positional-only, *args
+    # or **kwargs parameter can only reappear there)
+    extra_ignored += [p["name"] for p in params if p["kind"] in ("posOnly", "varPos", "varKw") and p["ignored"]]
 
     def eff(p: dict) -> Optional[dict]:
         """the property's reading: checked iff annotated or overridden, and not ignored"""
@@ -145,7 +145,8 @@ def _gen_case(g: VGen, opts: dict) -> dict:
             kwargs.append([p["name"], value_for(g, eff(p))])
     vk = [p for p in params if p["kind"] == "varKw"]
     if vk:
-        for name in r.sample(["x", "y", "zz"] + [p["name"] for p in params if p["kind"] == "posOnly"], r.choice([0, 0, 1, 2])):
+        # (names that cannot bind to their namesake - positional-only, *args, **kwargs itself - arrive through **kwargs)
+        for name in r.sample(["x", "y", "zz"] + [p["name"] for p in params if p["kind"] in ("posOnly", "varPos", "varKw")], r.choice([0, 0, 1, 2])):
             if not any(k[0] == name for k in kwargs):
                 kwargs.append([name, value_for(g, eff(vk[0]))])
     r.shuffle(kwargs)
